@@ -238,3 +238,10 @@ Proof.
          (Some {| h_alg := true; h_b64 := Some false; h_crit := Some [N_B64]; h_common := []; h_custom := None |}).
   split; [reflexivity|]. split; [left; reflexivity|]. split; [right; left; reflexivity|]. cbn. discriminate.
 Qed.
+
+(* the header create_jws assembles is accepted by the compact encoder for EVERY combination of signature options *)
+Theorem create_jws_header_valid o : enc_compact (create_jws_header o) = true.
+Proof. unfold enc_compact, validate_jws_headers, validate_disjoint, validate_crit, validate_b64, create_jws_header. cbn [obool omap h_crit h_b64].
+  destruct (so_b64 o) as [[|]|]; cbn; reflexivity. Qed.
+Theorem create_jws_header_b64 o : extract_b64 (Some (create_jws_header o)) = match so_b64 o with Some false => false | _ => true end.
+Proof. unfold extract_b64, create_jws_header. cbn [h_b64]. destruct (so_b64 o) as [[|]|]; reflexivity. Qed.
